@@ -562,16 +562,45 @@ const EXTSTATICCALL: u8 = 0xfb;
 /// Wrap one code section into an EOF v1 container (no data, no sub-containers).
 /// `max_stack` is the exact maximal stack height of the section.
 pub fn eof_container(code: &[u8], max_stack: u16) -> Bytes {
+    eof_container_with(code, max_stack, &[])
+}
+
+/// Same, with sub-containers (kind 3 section).
+pub fn eof_container_with(code: &[u8], max_stack: u16, subs: &[Bytes]) -> Bytes {
     let mut v = vec![0xef, 0x00, 0x01];
     v.extend_from_slice(&[0x01, 0x00, 0x04]); // types: one entry
     v.extend_from_slice(&[0x02, 0x00, 0x01]);
     v.extend_from_slice(&(code.len() as u16).to_be_bytes());
+    if !subs.is_empty() {
+        v.push(0x03);
+        v.extend_from_slice(&(subs.len() as u16).to_be_bytes());
+        for s in subs {
+            v.extend_from_slice(&(s.len() as u16).to_be_bytes());
+        }
+    }
     v.extend_from_slice(&[0x04, 0x00, 0x00]); // data size 0
     v.push(0x00);
     v.extend_from_slice(&[0x00, 0x80]); // inputs 0, non-returning
     v.extend_from_slice(&max_stack.to_be_bytes());
     v.extend_from_slice(code);
+    for s in subs {
+        v.extend_from_slice(s);
+    }
     Bytes::from(v)
+}
+
+/// An init container: optional SSTORE, then RETURNCONTRACT of a runtime container that
+/// just stops (or, for `fail`, an init container that reverts).
+pub fn eof_init_container(fail: bool) -> Bytes {
+    let runtime = eof_container(&[STOP], 0);
+    let mut a = Asm::new();
+    if fail {
+        a.push_u(0).push_u(0).op(REVERT);
+        return eof_container_with(&a.code, 2, &[]);
+    }
+    a.push_u(7).push_u(3).op(SSTORE);
+    a.push_u(0).push_u(0).op(0xee).raw(&[0]); // RETURNCONTRACT 0
+    eof_container_with(&a.code, 2, &[runtime])
 }
 
 /// A straight-line EOF program of `n` balanced snippets (each optionally guarded by a
@@ -579,13 +608,15 @@ pub fn eof_container(code: &[u8], max_stack: u16) -> Bytes {
 pub fn gen_eof_program(rng: &mut Rng, ctx: &GenCtx, n: usize) -> Bytes {
     let mut a = Asm::new();
     let mut max_stack: u16 = 1;
+    let mut uses_sub = false;
+    let init_fails = rng.chance(1, 4);
     for i in 0..n {
         let mut b = Asm::new();
         let k = *rng.pick(&ctx.slots);
         let addr = if ctx.addr_pool.is_empty() { Address::ZERO } else { *rng.pick(&ctx.addr_pool) };
         let mut term = false;
         let mut height: u16 = 2;
-        match rng.below(14) {
+        match rng.below(15) {
             0 | 1 => {
                 b.push_u(rng.below(4)).push(k).op(SSTORE);
             }
@@ -634,6 +665,12 @@ pub fn gen_eof_program(rng: &mut Rng, ctx: &GenCtx, n: usize) -> Bytes {
                 b.op(RETURNDATASIZE).op(POP);
                 height = 1;
             }
+            13 => {
+                // EOFCREATE of sub-container 0 (data_size, data_offset, salt, value)
+                uses_sub = true;
+                b.push_u(0).push_u(0).push(*rng.pick(&ctx.salts)).push(call_value(rng, ctx)).op(0xec).raw(&[0]).op(POP);
+                height = 4;
+            }
             _ => {
                 term = true;
                 match rng.below(3) {
@@ -662,7 +699,8 @@ pub fn gen_eof_program(rng: &mut Rng, ctx: &GenCtx, n: usize) -> Bytes {
     a.op(STOP);
     let _ = max_stack;
     // the declared maximal stack height must be exact: measure it on the produced code
-    eof_container(&a.code, eof_max_stack(&a.code))
+    let subs = if uses_sub { vec![eof_init_container(init_fails)] } else { vec![] };
+    eof_container_with(&a.code, eof_max_stack(&a.code), &subs)
 }
 
 /// Exact maximal stack height of straight-line EOF code whose only jumps are forward
